@@ -1,5 +1,6 @@
 import KmipProps.C02
 import KmipProps.C04
+import KmipProps.C06
 import KmipProofs.SpecCanon
 import KmipProofs.EncNorm
 /-
@@ -104,5 +105,30 @@ example : WFv (.struct exName) exNameVal := by
 example : (canonTop exName exNameVal).Small = true := by decide
 
 example : ∃ bs, encodeSD exName exNameVal = .ok bs := ⟨_, rfl⟩
+
+/-- C01 over a real transport: the bytes Encode produced for a well-formed value, delivered to a fresh Decoder by a transport that
+    fragments them in any way (guard `Stack.Inv`; anything may follow them on the stream), decode - through the Decoder's
+    bufio, the limit readers and bufios of the nested structures, the chunked string reads - to the normalised value, with the
+    count of exactly the encoded bytes.  (C01_roundtrip_stream composed with C06_decode_over_any_chunking.) -/
+theorem C01_roundtrip_over_any_transport (sd : SD) (v : Val) (bs more : Bytes) (src : Io.Src)
+    (hd : sd.descOk = true) (hok : SD.OK sd = true) (ht : sd.tag < tagMax)
+    (hw : WFv (.struct sd) v) (hs : (canonTop sd v).Small = true)
+    (henc : encodeSD sd v = .ok bs) (hi : (Io.Stack.top src).Inv) (hflat : src.flat = bs ++ more) :
+    ∃ x, Stk.decodeSrc sd src = .ok (normVal (.struct sd) v, bs.length, x) ∧ x.s.content = more ∧ x.last = 0 := by
+  obtain ⟨d', h⟩ := C01_roundtrip_stream sd v bs more src.fin hd hok ht hw hs henc
+  have hc := C06_exact_consumption sd (bs ++ more) src.fin _ _ d' h
+  have hv := C06_decode_over_any_chunking sd src hi
+  rw [hflat, h] at hv
+  cases hS : Stk.decodeSrc sd src with
+  | err e => rw [hS] at hv; simp [viewS, viewD] at hv
+  | panic p => rw [hS] at hv; simp [viewS, viewD] at hv
+  | ok r =>
+    obtain ⟨v', n', x⟩ := r
+    rw [hS] at hv
+    simp only [viewS, viewD, Outcome.ok.injEq, Prod.mk.injEq] at hv
+    obtain ⟨e1, e2, e3, _, e5⟩ := hv
+    refine ⟨x, by rw [e1, e2], ?_, ?_⟩
+    · rw [e3, hc.2.2]; simp
+    · rw [e5, hc.2.2]
 
 end Kmip
